@@ -15,6 +15,8 @@ TRUSTED = [
     "what api.ParquetFile shows of one file (file_scheme, schema, row groups) is an input of the merge model; reading one "
     "file's rows is C01/C03; partition values from directory names are C08 (the oracle uses unguessable text and plain integers)",
     "fsspec local filesystem: fs.cat(paths, start=-n) returns the file tails, fs.find/fs.glob list files in sorted order",
+    "extraction and driver are cross-checked on every run: 14 of the commands issued are re-evaluated by the Coq kernel "
+    "(vm_compute) and must give the output the extracted program printed (obligations extract_agrees_*); thorough tier: coqchk -o",
     "Python glue: generators, per-file summaries handed to the model, frame comparison (harness/partlib.py canonical values)",
 ]
 
@@ -85,7 +87,9 @@ def spec_base(parts_list):
 def run(ctx):
     C.coq_lib()
     ctx.trusted = TRUSTED
-    ctx.coq_file(os.path.join(C.COQ, "props", "C14.v"))
+    ok, _ = ctx.coq_file(os.path.join(C.COQ, "props", "C14.v"))
+    if ok and not ctx.quick():
+        L.coqchk_props(ctx, "C14")
     bad = C.hygiene()
     ctx.obligation("hygiene: no Admitted/Axiom/Parameter/... in coq/", not bad, "; ".join(bad))
     C.use_shadow()
@@ -122,7 +126,17 @@ def _run(ctx, pq):
             impl = "raises " + type(e).__name__
         cmds.append(("analyse_paths", [L.enc(p) for p in paths], [] if root is None else [L.enc(root)]))
         meta.append(({"corr": "analyse_paths", "shape": shape, "paths": paths, "root": root}, impl))
-    for (case, impl), mo in zip(meta, pq.batch(cmds)):
+    outs_a = pq.batch(cmds)
+    samples = []
+    L.sample_pq(samples, cmds, outs_a, rng, 10)
+    for cmd in [("merge", [b"/d/a.parquet", b"/d/b.parquet", b"/d/c.parquet"],
+                 [[True, 0, 3, [[2, [], 0]]], [True, 0, 3, [[0, [], 1], [3, [], 2]]], [True, 1, 4, [[1, [], 3]]]], False, use_fs, [])
+                for use_fs in (False, True)] + \
+               [("merge", [b"/d/s1", b"/d/s2"], [[False, 0, 3, [[2, [b"k=a/part.0.parquet"], 0]]], [False, 1, 3, [[1, [b"k=b/part.0.parquet"], 1]]]],
+                 verify, False, []) for verify in (False, True)]:
+        samples.append((cmd, pq.call(*cmd)))       # the merge commands of stream B run inside the workers
+    L.extraction_agrees(ctx, samples, "C14")
+    for (case, impl), mo in zip(meta, outs_a):
         ctx.case(case, trivial=(len(case["paths"]) == 1 and case["root"] is None))
         ctx.count("A.shape", case["shape"])
         ctx.count("A.root", "none" if case["root"] is None else "given")
